@@ -119,7 +119,11 @@ Filters::Filters():
    mpLevelFilter( nullptr)
 {
 
-   setDuplicatePolicy( detail::DuplicatePolicy::ignore);
+   // the duplicate policy is one setting for all filter objects of the
+   // process: only install the default when no policy was set yet, creating
+   // another log or destination must not undo the policy set by the application
+   if (mpDuplicatePolicy.get() == nullptr)
+      setDuplicatePolicy( detail::DuplicatePolicy::ignore);
 
 } // Filters::Filters
 
